@@ -18,6 +18,10 @@ ONE_SHOT_DURS = [0, 1, MS, 7 * MS, 1000 * MS, 2_500_000, 999_999, 1_000_001]
 INTERVAL_DURS = [MS, 7 * MS, 1000 * MS, 250_000, 1_500_000, 2 * MS]
 
 
+DMAX = (2**64 - 1) * 10**9 + 999_999_999      # Duration::MAX in ns
+U64MAX = 2**64 - 1                            # Duration::from_nanos(u64::MAX)
+
+
 def ceil_ms(t):
     return (t + MS - 1) // MS * MS
 
@@ -28,7 +32,7 @@ def ceil_ms(t):
 def op_line(o):
     k = o[0]
     if k == "mk":
-        return f"mk {o[1]} {o[2]}"
+        return f"mk {o[1]} {'max' if o[2] == DMAX else o[2]}"
     if k == "abort":
         return f"abort {o[1]}"
     if k == "stop":
@@ -255,6 +259,20 @@ def gen_abort_unpolled():
     return cases
 
 
+def gen_huge():
+    """huge periods, Duration::MAX included (tokio's sleep saturates to 'far future'): the timer
+    simply never fires, nothing panics, abort / stop / probes behave as for any pending timer"""
+    cases = []
+    for kind in "aeki":
+        for dur in (DMAX, U64MAX):
+            for tail in ([("settle",), ("probe",)],
+                         [("adv", MS), ("probe",), ("abort", 0), ("probe",)],
+                         [("adv", MS), ("stop", 2), ("adv", MS), ("probe",)],
+                         [("mk", "a", MS), ("adv", MS), ("probe",), ("kill",), ("probe",)]):
+                cases.append([("mk", kind, dur)] + list(tail))
+    return cases
+
+
 def gen_exhaustive():
     """one timer x duration x one action at every position relative to the expiry"""
     cases = []
@@ -407,6 +425,7 @@ def run(chk):
     cases += [("S", c) for c in gen_parked_systematic()]
     cases += [("G", c) for c in gen_gated_systematic()]
     cases += [("", c) for c in gen_abort_unpolled()]
+    cases += [("", c) for c in gen_huge()]
     n_exh = len(cases) - n_corpus
     n_rand = (1500 if quick else 20000) * factor
     for k in range(n_rand):
